@@ -688,7 +688,7 @@ func (g *sgen) mutate(f0 *AFile) *AFile {
 		case c == 0:
 			f.Syntax = g.pick("proto2", "proto3", "editions", "proto4")
 			if f.Syntax == "editions" {
-				f.Edition = []int{1000, 1001, 0, 1002, 999}[r.IntN(5)]
+				f.Edition = []int{1000, 1001, 0, 1002, 900}[r.IntN(5)] // (editions syntax with edition 998/999 is a hybrid nobody specifies)
 			} else {
 				f.Edition = 0
 			}
